@@ -23,6 +23,8 @@ pub enum E {
     Call(String, Vec<E>, Site),
     /// call of an arbitrary callee expression
     CallE(Box<E>, Vec<E>, Site),
+    /// call with a parameter pack: `f({k = v, ..})`; parameters not named take their default value
+    CallPack(String, Vec<(String, E)>, Site),
     If(Box<E>, Box<E>, Box<E>),
     Block(Vec<S>, Option<Box<E>>),
     Lambda(Vec<String>, Box<E>),
@@ -154,7 +156,7 @@ pub fn fmt_num(x: f64) -> String {
 fn is_atom(e: &E) -> bool {
     matches!(
         e,
-        E::Var(_) | E::Now | E::Sr | E::SelfV | E::Call(..) | E::Math(..) | E::Tuple(_) | E::Mem(..) | E::Delay(..) | E::Paren(_) | E::Block(..) | E::Record(_)
+        E::Var(_) | E::Now | E::Sr | E::SelfV | E::Call(..) | E::CallPack(..) | E::Math(..) | E::Tuple(_) | E::Mem(..) | E::Delay(..) | E::Paren(_) | E::Block(..) | E::Record(_)
     ) || matches!(e, E::Num(x) if *x >= 0.0 && !x.is_nan() && x.is_finite() && !(*x == 0.0 && x.is_sign_negative()))
 }
 fn pa(e: &E, ind: usize) -> String {
@@ -196,6 +198,13 @@ pub fn pe(e: &E, ind: usize) -> String {
         E::Math(f, args) => format!("{f}({})", args.iter().map(|a| pe(a, ind)).collect::<Vec<_>>().join(", ")),
         E::Call(f, args, _) => format!("{f}({})", args.iter().map(|a| pe(a, ind)).collect::<Vec<_>>().join(", ")),
         E::CallE(f, args, _) => format!("{}({})", pa(f, ind), args.iter().map(|a| pe(a, ind)).collect::<Vec<_>>().join(", ")),
+        E::CallPack(f, fields, _) => {
+            if fields.is_empty() {
+                format!("{f}({{..}})")
+            } else {
+                format!("{f}({{{}}})", fields.iter().map(|(k, v)| format!("{k} = {}", pe(v, ind))).collect::<Vec<_>>().join(", "))
+            }
+        }
         // `if (c) (e)` would be read as the call `(c)(e)`: a then-branch that starts with a parenthesis goes into a block
         E::If(c, t, el) => format!("if ({}) {} else {}", pe(c, ind), pbranch(t, ind), pbranch(el, ind)),
         E::Block(ss, r) => {
@@ -571,6 +580,34 @@ impl<'p> Interp<'p> {
                     vs.push(self.eval(a, env, node, selfv)?);
                 }
                 self.apply(fv, vs, node, *site)?
+            }
+            E::CallPack(f, fields, site) => {
+                let fd = *self.fns.get(f).ok_or_else(|| EvalErr::Bug(format!("unknown fn {f}")))?;
+                // evaluate the given fields in source order, then bind parameters by name
+                let mut given: Vec<(String, V)> = vec![];
+                for (k, a) in fields {
+                    given.push((k.clone(), self.eval(a, env, node, selfv)?));
+                }
+                let ch = Self::child(node, *site);
+                let mut fenv = self.globals.clone();
+                for (n, d) in &fd.params {
+                    let n = n.split(':').next().unwrap();
+                    let v = match given.iter().find(|(k, _)| k == n) {
+                        Some((_, v)) => v.clone(),
+                        None => match d {
+                            Some(d) => {
+                                let mut e2 = self.globals.clone();
+                                self.eval(d, &mut e2, &ch, None)?
+                            }
+                            None => return Err(EvalErr::Bug(format!("parameter {n} of {f} has no default"))),
+                        },
+                    };
+                    fenv.bind(n, v);
+                }
+                let sv = ch.borrow().self_val.clone().unwrap_or_else(|| fd.ret.zero());
+                let r = self.eval(&fd.body, &mut fenv, &ch, Some(&sv))?;
+                ch.borrow_mut().self_val = Some(r.clone());
+                r
             }
             E::CallE(f, args, site) => {
                 let fv = self.eval(f, env, node, selfv)?;
